@@ -175,7 +175,7 @@ impl From<MacroPatch> for TypeSpacePatch {
             s.with_rename(rename);
         });
         a.derives.iter().for_each(|derive| {
-            s.with_derive(derive.to_token_stream());
+            s.with_derive(derive_to_string(derive));
         });
         s
     }
@@ -199,7 +199,7 @@ fn do_import_types(item: TokenStream) -> Result<TokenStream, syn::Error> {
         } = serde_tokenstream::from_tokenstream(&item.into())?;
         let mut settings = TypeSpaceSettings::default();
         derives.into_iter().for_each(|derive| {
-            settings.with_derive(derive.to_token_stream().to_string());
+            settings.with_derive(derive_to_string(&derive));
         });
         settings.with_struct_builder(struct_builder);
 
@@ -261,6 +261,14 @@ fn do_import_types(item: TokenStream) -> Result<TokenStream, syn::Error> {
     };
 
     Ok(output.into())
+}
+
+/// Render a derive path as it is written (`a::b::C` rather than the token
+/// stream's `a :: b :: C`). Derives are ordered and de-duplicated as strings
+/// so the spelling needs to match that of the derives typify adds itself and
+/// of those specified through the builder interface.
+fn derive_to_string(derive: &syn::Path) -> String {
+    derive.to_token_stream().to_string().replace(' ', "")
 }
 
 fn into_syn_err(e: typify_impl::Error, span: proc_macro2::Span) -> syn::Error {
